@@ -109,7 +109,7 @@ class ImmutableDict(Mapping[Any, Any]):
 
         self._validate(arg)
         self._d = dict(arg)
-        self._hash = hash(tuple([(type(x), x, type(y), y) for x, y in sorted(self._d.items())]))
+        self._hash = hash(tuple(sorted(self._d.items())))
 
     def _validate(self, arg: dict[Any, Any] | Iterable[tuple[Any, Any]]) -> None:
         """Validate arguments."""
